@@ -350,6 +350,11 @@ func crcSeedThroughParam(c *Ctx, r *Report, key string, fn *ssa.Function, site s
 	for _, hs := range sites {
 		var gcall *ssa.Call
 		idx := 0
+		if cw, ok := isSum32Of(argFor(hs.Common(), sp)); ok {
+			// the caller takes the running CRC of a hashing writer it created itself and through
+			// which everything before the footer was written (directly or by helpers)
+			return crcSeedInCaller(c, r, key, fn, hs, cw, argFor(hs.Common(), sp), argFor(hs.Common(), wp), len(sites) == 1)
+		}
 		switch x := argFor(hs.Common(), sp).(type) {
 		case *ssa.Extract:
 			gcall, _ = x.Tuple.(*ssa.Call)
@@ -874,6 +879,16 @@ func init() {
 				return
 			}
 			if cw == nil || len(writes) == 0 {
+				// the footer assembled in one local buffer and written with a single Write
+				if verdict, msg, at := footerBufferForm(c, fn, footerParam, writerParam); verdict != "" {
+					switch verdict {
+					case "ok":
+						r.ok(key, fnName(fn), at, msg)
+					case "bad":
+						r.bad(key, fnName(fn), at, msg)
+					}
+					return
+				}
 				r.undecided(key, fnName(fn), c.pos(fn.Pos()), "persistFooter no longer writes its fields with binary.Write through a countHashWriter: the rule's model is out of date")
 				return
 			}
@@ -1596,6 +1611,12 @@ func (c *Ctx) sealWriterIn(fn *ssa.Function) ssa.Value {
 		if mi, ok := wv.(*ssa.MakeInterface); ok {
 			wv = mi.X
 		}
+		if _, isParam := wv.(*ssa.Parameter); !isParam && wv != nil {
+			// (a buffered wrapper the helper puts in front of the writer it was handed)
+			if _, _, base := writerChain(wv); base != nil {
+				wv = base
+			}
+		}
 		if wp, ok := wv.(*ssa.Parameter); ok {
 			for _, hs := range c.callsTo(h) {
 				if hs.Parent() == fn {
@@ -1617,6 +1638,24 @@ func dataThrough(fn *ssa.Function, ctor ssa.Value) bool {
 			if !ok {
 				continue
 			}
+			// a helper of the same package that is handed the writer and copies the data through it
+			if sc := call.Call.StaticCallee(); sc != nil && sc.Blocks != nil && sc != fn && sc.Pkg == fn.Pkg {
+				for ai, a := range call.Call.Args {
+					if ai >= len(sc.Params) || !(isWriterLike(a.Type()) || strings.HasSuffix(a.Type().String(), ".countHashWriter")) {
+						continue
+					}
+					_, ctors, _ := writerChain(a)
+					through := false
+					for _, ct := range ctors {
+						if ct == ctor {
+							through = true
+						}
+					}
+					if through && dataThroughParam(sc, sc.Params[ai]) {
+						return true
+					}
+				}
+			}
 			if sc := call.Call.StaticCallee(); sc != nil && funcFullName(sc) == "github.com/blugelabs/bluge_segment_api.(*Data).WriteTo" {
 				for _, a := range call.Call.Args {
 					if !isWriterLike(a.Type()) {
@@ -1633,4 +1672,282 @@ func dataThrough(fn *ssa.Function, ctor ssa.Value) bool {
 		}
 	}
 	return false
+}
+
+// dataThroughParam: fn copies the segment's data (Data.WriteTo) to its writer parameter p.
+func dataThroughParam(fn *ssa.Function, p *ssa.Parameter) bool {
+	for _, b := range fn.Blocks {
+		for _, ins := range b.Instrs {
+			call, ok := ins.(*ssa.Call)
+			if !ok {
+				continue
+			}
+			if sc := call.Call.StaticCallee(); sc != nil && funcFullName(sc) == "github.com/blugelabs/bluge_segment_api.(*Data).WriteTo" {
+				for _, a := range call.Call.Args {
+					if _, _, base := writerChain(a); base == ssa.Value(p) {
+						return true
+					}
+				}
+			}
+		}
+	}
+	return false
+}
+
+func crcSeedInCaller(c *Ctx, r *Report, key string, fn *ssa.Function, hs ssa.CallInstruction, cw, crcArg, dest ssa.Value, only bool) bool {
+	if !only {
+		return false
+	}
+	caller := hs.Parent()
+	at := c.pos(hs.Pos())
+	cwCall, ok := cw.(*ssa.Call)
+	if !ok || cwCall.Call.StaticCallee() == nil || fnName(cwCall.Call.StaticCallee()) != "newCountHashWriter" {
+		r.undecided(key, fnName(fn), at, "the hashing writer whose CRC is handed to "+fnName(fn)+" is not created in "+fnName(caller))
+		return true
+	}
+	capture, ok := crcArg.(ssa.Instruction)
+	if !ok {
+		return false
+	}
+	_, _, base := writerChain(cwCall)
+	var bypass []string
+	uses := 0
+	for _, b := range caller.Blocks {
+		for _, ins := range b.Instrs {
+			ci, ok := ins.(ssa.CallInstruction)
+			if !ok || ins == ssa.Instruction(cwCall) || ins == ssa.Instruction(hs) {
+				continue
+			}
+			sc := ci.Common().StaticCallee()
+			if sc != nil && (strings.HasPrefix(funcFullName(sc), "bufio.NewWriter") || fnName(sc) == "newCountHashWriter" || sc.Name() == "Flush" || sc.Name() == "Sum32" || sc.Name() == "Count") {
+				continue
+			}
+			for _, a := range ci.Common().Args {
+				if !(isWriterLike(a.Type()) || strings.HasSuffix(a.Type().String(), ".countHashWriter")) {
+					continue
+				}
+				ch, ctors, ab := writerChain(a)
+				if ab != base {
+					continue
+				}
+				through := false
+				for _, ct := range ctors {
+					if ct == ssa.Value(cwCall) {
+						through = true
+					}
+				}
+				switch {
+				case !through && before(ins, hs):
+					bypass = append(bypass, fmt.Sprintf("%s at %s writes to the destination through %v, bypassing the hashing writer", calleeFullName(ci.Common()), c.pos(ins.Pos()), ch))
+				case through && !before(ins, capture):
+					bypass = append(bypass, fmt.Sprintf("%s at %s can write through the hashing writer after its CRC was taken at %s", calleeFullName(ci.Common()), c.pos(ins.Pos()), c.pos(capture.Pos())))
+				case through:
+					uses++
+					for i, ct := range ctors {
+						if ct == ssa.Value(cwCall) {
+							break
+						}
+						if ch[i] == "bufio" {
+							bypass = append(bypass, fmt.Sprintf("%s at %s writes through a bufio.Writer placed in front of the hashing writer", calleeFullName(ci.Common()), c.pos(ins.Pos())))
+						}
+					}
+				}
+			}
+		}
+	}
+	if len(bypass) > 0 {
+		r.bad(key, fnName(fn), at, "bytes reach the destination without being hashed", bypass...)
+		return true
+	}
+	if uses == 0 {
+		r.bad(key, fnName(fn), at, "no data is written through the countHashWriter whose CRC seeds the footer")
+		return true
+	}
+	if _, _, db := writerChain(dest); db != base {
+		r.bad(key, fnName(fn), at, "the footer is written to a different destination than the data")
+		return true
+	}
+	if !before(capture, hs) {
+		r.bad(key, fnName(fn), at, "the CRC is not taken before the footer is written")
+		return true
+	}
+	r.ok(key, fnName(fn), at, fmt.Sprintf("footer crc = the running CRC of the hashing writer of %s, taken after its %d data-writing call(s) and handed to %s, which writes to the same destination", fnName(caller), uses, fnName(fn)))
+	return true
+}
+
+// footerBufferForm decides CRC-LAST for a persistFooter that puts the fields
+// into one local array with binary.BigEndian.PutUintNN at constant offsets,
+// computes crc32.Update(footer.crc, table, buf[:K]) and puts that at offset K,
+// then hands the buffer to the writer once: the CRC covers exactly the bytes in
+// front of it (K is the offset it is stored at and no field lies at or behind
+// K), it continues footer.crc, it is computed after the last field was put,
+// and the whole buffer is written.  verdict "" = not this form.
+func footerBufferForm(c *Ctx, fn *ssa.Function, footerParam, writerParam *ssa.Parameter) (verdict, msg, at string) {
+	type put struct {
+		call *ssa.Call
+		off  int64
+		val  ssa.Value
+	}
+	var buf *ssa.Alloc
+	var puts []put
+	var update *ssa.Call
+	var writes []ssa.CallInstruction
+	sliceOf := func(v ssa.Value) (*ssa.Alloc, int64, int64, bool) { // buffer, low, high (-1 = open)
+		sl, ok := v.(*ssa.Slice)
+		if !ok {
+			return nil, 0, 0, false
+		}
+		al, ok := sl.X.(*ssa.Alloc)
+		if !ok {
+			return nil, 0, 0, false
+		}
+		lo, hi := int64(0), int64(-1)
+		if sl.Low != nil {
+			k, ok := constLike(sl.Low)
+			if !ok {
+				return nil, 0, 0, false
+			}
+			lo = k
+		}
+		if sl.High != nil {
+			k, ok := constLike(sl.High)
+			if !ok {
+				return nil, 0, 0, false
+			}
+			hi = k
+		}
+		return al, lo, hi, true
+	}
+	constLikeCtx = c
+	for _, b := range fn.Blocks {
+		for _, ins := range b.Instrs {
+			ci, ok := ins.(ssa.CallInstruction)
+			if !ok {
+				continue
+			}
+			cc := ci.Common()
+			if cc.IsInvoke() {
+				if cc.Method.Name() == "Write" {
+					writes = append(writes, ci)
+				}
+				continue
+			}
+			sc := cc.StaticCallee()
+			if sc == nil {
+				continue
+			}
+			full := funcFullName(sc)
+			switch {
+			case strings.HasPrefix(full, "encoding/binary.") && strings.HasPrefix(sc.Name(), "PutUint") && len(cc.Args) >= 2:
+				call, _ := ins.(*ssa.Call)
+				al, lo, _, ok := sliceOf(cc.Args[len(cc.Args)-2])
+				if !ok || call == nil {
+					return "", "", ""
+				}
+				if buf != nil && buf != al {
+					return "", "", ""
+				}
+				buf = al
+				puts = append(puts, put{call, lo, cc.Args[len(cc.Args)-1]})
+			case full == "hash/crc32.Update":
+				if update != nil {
+					return "", "", ""
+				}
+				update, _ = ins.(*ssa.Call)
+			case full == "encoding/binary.Write" || fnName(sc) == "newCountHashWriter":
+				return "", "", ""
+			case c.inRoot(sc) || strings.HasSuffix(sc.Name(), "Write"):
+				for _, a := range cc.Args {
+					if isWriterLike(a.Type()) {
+						writes = append(writes, ci)
+					}
+				}
+			}
+		}
+	}
+	if buf == nil || update == nil || len(puts) < 2 {
+		return "", "", ""
+	}
+	at = c.pos(update.Pos())
+	// the seed is the crc of the footer that was handed in
+	seedOK := false
+	if ld, ok := update.Call.Args[0].(*ssa.UnOp); ok && ld.Op == token.MUL {
+		if fa, ok := ld.X.(*ssa.FieldAddr); ok && fa.X == ssa.Value(footerParam) {
+			if _, f := fieldAddrInfo(fa); f != nil && f.Name() == "crc" {
+				seedOK = true
+			}
+		}
+	}
+	if !seedOK {
+		return "bad", "the CRC written into the footer does not continue footer.crc (crc32.Update is seeded with " + exprSig(update.Call.Args[0], 0) + ")", at
+	}
+	al, lo, hi, ok := sliceOf(update.Call.Args[2])
+	if !ok || al != buf || lo != 0 || hi < 0 {
+		return "bad", "the CRC is not computed over the footer buffer from its start up to a constant offset", at
+	}
+	var crcPut *put
+	for i := range puts {
+		if puts[i].val == ssa.Value(update) {
+			if crcPut != nil {
+				return "bad", "the CRC is stored twice", at
+			}
+			crcPut = &puts[i]
+		}
+	}
+	if crcPut == nil {
+		return "bad", "the CRC computed over the footer fields is not stored into the footer buffer", at
+	}
+	if crcPut.off != hi {
+		return "bad", fmt.Sprintf("the CRC covers the first %d bytes of the footer buffer but is stored at offset %d: it does not cover exactly the bytes in front of it", hi, crcPut.off), at
+	}
+	for _, p := range puts {
+		if p.call == crcPut.call {
+			continue
+		}
+		if p.off >= hi {
+			return "bad", fmt.Sprintf("a footer field is stored at offset %d, at or behind the CRC (offset %d): the CRC is not the last field", p.off, hi), c.pos(p.call.Pos())
+		}
+		if !before(p.call, update) {
+			return "bad", "a footer field is put into the buffer at " + c.pos(p.call.Pos()) + ", which does not precede the computation of the CRC on every path", at
+		}
+	}
+	if !before(update, crcPut.call) {
+		return "bad", "the CRC is stored before it is computed", at
+	}
+	// exactly one write of the whole buffer, to the writer parameter, after the CRC was stored
+	if len(writes) != 1 {
+		return "bad", fmt.Sprintf("%d writes to the destination in persistFooter, expected the one that hands over the footer buffer", len(writes)), at
+	}
+	w := writes[0]
+	var data ssa.Value
+	wc := w.Common()
+	if wc.IsInvoke() {
+		if wc.Value != ssa.Value(writerParam) || len(wc.Args) != 1 {
+			return "bad", "the footer buffer is not written to the writer persistFooter was handed", c.pos(w.Pos())
+		}
+		data = wc.Args[0]
+	} else {
+		for _, a := range wc.Args {
+			if isByteSlice(a.Type()) {
+				data = a
+			}
+		}
+	}
+	wal, wlo, whi, ok := sliceOf(data)
+	var arrLen int64 = -1
+	if pt, isPtr := buf.Type().Underlying().(*types.Pointer); isPtr {
+		if at, isArr := pt.Elem().Underlying().(*types.Array); isArr {
+			arrLen = at.Len()
+		}
+	}
+	if !ok || wal != buf || wlo != 0 || (whi >= 0 && whi != arrLen) {
+		return "bad", "what is written is not the whole footer buffer", c.pos(w.Pos())
+	}
+	if arrLen != hi+4 {
+		return "bad", fmt.Sprintf("the footer buffer has %d bytes but the CRC ends at %d", arrLen, hi+4), at
+	}
+	if !before(crcPut.call, w.(ssa.Instruction)) {
+		return "bad", "the footer buffer is written before the CRC was stored into it", c.pos(w.Pos())
+	}
+	return "ok", fmt.Sprintf("%d fields put into one buffer in front of offset %d; crc32.Update(footer.crc, …, buf[:%d]) is stored at %d and the whole buffer is written once", len(puts)-1, hi, hi, hi), at
 }
